@@ -7,7 +7,7 @@ from tools.framework import Case, Err
 from harness.midi_common import *
 
 ID = "C20"
-LEAN_MODULES = ["Mingus.Props.C20", "Mingus.Props.C20Chord", "Mingus.Props.C20Decode", "Mingus.Tie.C20"]
+LEAN_MODULES = ["Mingus.Props.C20", "Mingus.Props.C20Chord", "Mingus.Props.C20Decode", "Mingus.Props.C20Track", "Mingus.Tie.C20"]
 RULE = ("every registered tuning (76) x every string x notes 0..127 (quick: every 3rd) x maxfret {0,12,24}: find_frets and "
         "get_Note incl. out-of-range strings and frets; seeded random note sets (1-4 notes) per tuning x max_distance 1-6 against "
         "a brute-force specification of find_fingering; chord shorthands x roots on the guitar-family single-string tunings for "
